@@ -139,3 +139,32 @@ Theorem C16_combine_counts_suffix :
                    forall k, total (key_n n) (list_eq_dec N.eq_dec) snd k (concat blocks) mod 2 ^ 64 =
                              total (key_n n) (list_eq_dec N.eq_dec) snd k out mod 2 ^ 64.
 Proof. exact combine_counts_suffix. Qed.
+
+(* The combined result is canonical: two sorts -- any two accepted configurations, modes, block splits and block
+   sorters -- whose inputs have the same key set and the same per-key totals (duplicate-free blocks, well-formed records:
+   Q is preserved by the combiner, bounds the count by W and makes (key, count) determine the record) emit the SAME list. *)
+Theorem C16_combiner_canonical :
+  forall (A K : Type) (lt : A -> A -> bool) (combine : A -> A -> option A) (es : N)
+         (key : A -> K) (key_eq_dec : forall a b : K, {a = b} + {a <> b}) (cnt : A -> N) (W : N),
+  W <> 0 ->
+  (forall a b, lt a b = true -> lt b a = false) ->
+  (forall a b c, le lt a b -> le lt b c -> le lt a c) ->
+  (forall a b c, combine a b = Some c -> key b = key a /\ key c = key a /\ cnt c mod W = (cnt a + cnt b) mod W) ->
+  (forall a a' b b', key a = key a' -> key b = key b' -> lt a b = lt a' b') ->
+  (forall a b, key a = key b -> combine a b <> None) ->
+  (forall a b, lt a b = false -> lt b a = false -> key a = key b) ->
+  forall Q : A -> Prop,
+  (forall a b c, Q a -> Q b -> combine a b = Some c -> Q c) ->
+  (forall a, Q a -> cnt a < W) ->
+  (forall a b, Q a -> Q b -> key a = key b -> cnt a = cnt b -> a = b) ->
+  forall m1 c1 b1 lazy1 blocks1 runs1 out1 tr1 r1 m2 c2 b2 lazy2 blocks2 runs2 out2 tr2 r2,
+  sort_ctor es c1 = CtorOk b1 -> sort_ctor es c2 = CtorOk b2 ->
+  block_sorted lt blocks1 runs1 -> block_sorted lt blocks2 runs2 ->
+  Forall (fun blk => NoDup (map key blk)) blocks1 -> Forall (fun blk => NoDup (map key blk)) blocks2 ->
+  Forall (Forall Q) blocks1 -> Forall (Forall Q) blocks2 ->
+  (forall k, total key key_eq_dec cnt k (concat blocks1) mod W = total key key_eq_dec cnt k (concat blocks2) mod W) ->
+  (forall k, In k (map key (concat blocks1)) <-> In k (map key (concat blocks2))) ->
+  sort_dispatch lt combine es m1 b1 (cfg_total c1) lazy1 runs1 = (SortOk out1 tr1, r1) ->
+  sort_dispatch lt combine es m2 b2 (cfg_total c2) lazy2 runs2 = (SortOk out2 tr2, r2) ->
+  out1 = out2.
+Proof. exact @combiner_canonical. Qed.
